@@ -79,6 +79,7 @@ type runState struct {
 	obsSeq     []uint64   // per graph: first fired foreign receive on the goroutine that called Run
 	dfs        [][]string
 	dfsErr     []error
+	lockProbe  string // the Task the post-run lock probe is waiting for ("" = not probing)
 	cancelSeq  uint64 // first cancel() issued
 	cancelSlp  []int  // per graph: sleeps the Run goroutine had started when cancel() was issued
 	retSlp     []int  // ... when Run returned
@@ -652,6 +653,20 @@ func (r *runState) main() {
 	if sc.Cancel.Kind == "after-run" {
 		r.doCancel(cancel, "cancel_after_last_exit")
 	}
+	// Lock probe (O16e): once every Run has returned, each Task must become lockable again (a task
+	// goroutine may still be on its way out, so this waits). A Task lock that is never released
+	// would make the next Run of any graph containing that Task hang.
+	if !simrt.RealRuntime {
+		for i := 0; i < n; i++ {
+			r.lockProbe = fmt.Sprintf("t%02d", i)
+			tasks[i].Lock()
+			tasks[i].Unlock()
+			r.lockProbe = fmt.Sprintf("t%02d'", i)
+			alts[i].Lock()
+			alts[i].Unlock()
+		}
+		r.lockProbe = ""
+	}
 }
 
 // onSettled is the work-conservation oracle O16b. It is called when the scheduler loop polled twice
@@ -751,6 +766,8 @@ func (r *runState) posthoc() {
 					r.fail("C16", "O16a", res.Seq, "Run of g%d never returns: %s (every started task function had returned=%v; waiting: %s)", g, res.Verdict, r.noneExecuting(), strings.Join(res.Unfinished, ","))
 				}
 			}
+		} else if r.lockProbe != "" {
+			r.fail("C16", "O16e", res.Seq, "every Run returned, but the lock of Task %s is never released (%s): the next Run of any graph containing this Task would never return", r.lockProbe, res.Verdict)
 		} else {
 			res.Probes["leaked_goroutines_after_run"]++
 		}
